@@ -116,3 +116,344 @@ Proof.
     unfold g. rewrite (cells_axis_nth lo hi k Hlh Hk j Hj), (centre_formula lo hi k).
     rewrite (cell_nth m Hwf a Ha). reflexivity.
 Qed.
+
+(* ---------- one axis of Mesh(region, cell) when the cell divides the edge exactly ---------- *)
+Section AxisByCell.
+Variables (lo hi c : Q) (k : Z).
+Hypothesis Hlh : lo < hi.
+Hypothesis Hk : (0 < k)%Z.
+Hypothesis Hc : inject_Z k * c == hi - lo.
+
+Lemma kq_ge1 : 1 <= inject_Z k.
+Proof. change 1 with (inject_Z 1). rewrite <- Zle_Qle. lia. Qed.
+
+Lemma bc_c_pos : 0 < c.
+Proof. pose proof kq_ge1. destruct (Qlt_le_dec 0 c) as [H1|H1]; [exact H1|]. exfalso. nra. Qed.
+
+Lemma bc_c_le : lo + c <= hi.
+Proof. pose proof kq_ge1. pose proof bc_c_pos. nra. Qed.
+
+Lemma bc_ratio : (hi - lo) / c == inject_Z k.
+Proof. pose proof bc_c_pos. rewrite <- Hc. field. lra. Qed.
+
+Lemma bc_floor : Qfloor ((hi - lo) / c) = k.
+Proof. rewrite bc_ratio. apply Qfloor_Z. Qed.
+
+Lemma bc_rem : Qremainder (hi - lo) c == 0.
+Proof. unfold Qremainder. rewrite bc_floor. lra. Qed.
+
+Lemma bc_not_bad tol : 0 <= tol -> bad_rem tol c (hi - lo) = false.
+Proof.
+  intros Ht. unfold bad_rem. apply andb_false_iff. left. apply Qltb_false. rewrite bc_rem. exact Ht.
+Qed.
+
+Lemma bc_round : Qround_half_even ((hi - lo) / c) = k.
+Proof.
+  unfold Qround_half_even. rewrite bc_floor.
+  assert (E : (hi - lo) / c - inject_Z k == 0) by (rewrite bc_ratio; lra).
+  destruct (Qcompare_spec ((hi - lo) / c - inject_Z k) (1 # 2)) as [H|H|H]; try reflexivity; lra.
+Qed.
+
+Lemma bc_edge_nonzero : Qeq_bool (hi - lo) 0 = false.
+Proof. destruct (Qeq_bool (hi - lo) 0) eqn:E; [|reflexivity]. apply Qeq_bool_eq in E. lra. Qed.
+
+Lemma bc_min : Qmin lo hi = lo /\ Qmax lo hi = hi.
+Proof.
+  unfold Qmin, Qmax, GenericMinMax.gmin, GenericMinMax.gmax.
+  destruct (Qcompare_spec lo hi) as [H|H|H]; try lra. split; reflexivity.
+Qed.
+End AxisByCell.
+
+(* ---------- evenly spaced lists ---------- *)
+Definition prog (s : Q) (v : list Q) : Prop := Forall (fun d => d == s) (diffs v).
+
+Lemma qsum_const (s : Q) (l : list Q) :
+  Forall (fun d => d == s) l -> qsum l == inject_Z (Z.of_nat (length l)) * s.
+Proof.
+  induction 1 as [|x l Hx H IH].
+  - simpl. change (inject_Z 0) with 0. lra.
+  - change (qsum (x :: l)) with (x + qsum l). assert (Hx' : x == s) by exact Hx.
+    change (length (x :: l)) with (S (length l)). rewrite IH, Hx'. rewrite Nat2Z.inj_succ. unfold Z.succ.
+    rewrite inject_Z_plus. change (inject_Z 1) with 1. lra.
+Qed.
+
+Lemma qmean_const (s : Q) (l : list Q) : l <> [] -> Forall (fun d => d == s) l -> qmean l == s.
+Proof.
+  intros Hne H. unfold qmean. rewrite (qsum_const s l H).
+  assert (0 < inject_Z (Z.of_nat (length l))).
+  { apply inject_Z_pos. destruct l; [congruence | simpl; lia]. }
+  field. lra.
+Qed.
+
+Lemma prog_evenly (s : Q) (v : list Q) : prog s v -> evenly 1 v = true.
+Proof.
+  unfold prog, evenly. intros H.
+  destruct (diffs v) as [|d0 ds] eqn:E; [reflexivity|].
+  assert (M : qmean (d0 :: ds) == s) by (apply qmean_const; [discriminate | exact H]).
+  apply forallb_forall. intros x Hx. apply Qle_bool_iff.
+  rewrite Forall_forall in H. assert (Hxs : x == s) by (apply H; exact Hx). rewrite Hxs, M.
+  setoid_replace (s - s) with 0 by ring. unfold np_atol, np_rtol.
+  pose proof (Qabs_nonneg s). change (Qabs 0) with 0. lra.
+Qed.
+
+Lemma prog_map_ziota (g : Z -> Q) (s : Q) (m : nat) (z : Z) :
+  (forall j, (z <= j < z + Z.of_nat m - 1)%Z -> g (j + 1)%Z - g j == s) ->
+  prog s (map g (ziota z m)).
+Proof.
+  unfold prog. revert z. induction m as [|m IH]; intros z H; [constructor|].
+  destruct m as [|m]; [constructor|].
+  change (diffs (map g (ziota z (S (S m)))))
+    with ((g (z + 1)%Z - g z) :: diffs (map g (ziota (z + 1) (S m)))).
+  constructor.
+  - apply H. lia.
+  - apply IH. intros j Hj. apply H. lia.
+Qed.
+
+Lemma cells_axis_prog (lo hi : Q) (k : Z) : lo < hi -> (0 < k)%Z ->
+  prog (cell_of lo hi k) (cells_axis lo hi k).
+Proof.
+  intros Hlh Hk. unfold cells_axis, linspace. apply prog_map_ziota.
+  intros j Hj. rewrite Z2Nat.id in Hj by lia.
+  rewrite (cells_axis_nth lo hi k Hlh Hk (j + 1)) by lia.
+  rewrite (cells_axis_nth lo hi k Hlh Hk j) by lia.
+  unfold i2p1. rewrite inject_Z_plus. change (inject_Z 1) with 1. ring.
+Qed.
+
+(* ---------- all axes: Mesh(region, cell) accepts a cell that divides every edge ---------- *)
+Inductive axes : list Q -> list Q -> list Z -> list Q -> Prop :=
+| axes_nil : axes [] [] [] []
+| axes_cons lo hi k c los his ks cs :
+    lo < hi -> (0 < k)%Z -> inject_Z k * c == hi - lo -> axes los his ks cs ->
+    axes (lo :: los) (hi :: his) (k :: ks) (c :: cs).
+
+Lemma axes_lengths los his ks cs : axes los his ks cs ->
+  length his = length los /\ length ks = length los /\ length cs = length los.
+Proof. induction 1; simpl; [auto | intuition lia]. Qed.
+
+Lemma axes_cells_pos los his ks cs : axes los his ks cs -> forallb (fun x => Qltb 0 x) cs = true.
+Proof.
+  induction 1 as [|lo hi k c los his ks cs Hlh Hk Hc _ IH]; [reflexivity|].
+  simpl. rewrite IH, andb_true_r. apply Qltb_true. exact (bc_c_pos lo hi c k Hlh Hk Hc).
+Qed.
+
+Lemma axes_In_pos los his ks cs : axes los his ks cs -> forall e, In e cs -> 0 < e.
+Proof.
+  induction 1 as [|lo hi k c los his ks cs Hlh Hk Hc _ IH]; simpl; [tauto|].
+  intros e [E | E]; [subst e; exact (bc_c_pos lo hi c k Hlh Hk Hc) | exact (IH e E)].
+Qed.
+
+Lemma axes_contains_lo rtol atol los his ks cs : 0 <= rtol -> 0 <= atol -> axes los his ks cs ->
+  forallb (fun b => b) (map3 (contains1 rtol atol) los his los) = true /\
+  forallb (fun b => b) (map3 (contains1 rtol atol) los his (map2 Qplus los cs)) = true.
+Proof.
+  intros Hr Ha. induction 1 as [|lo hi k c los his ks cs Hlh Hk Hc _ [IH1 IH2]]; [split; reflexivity|].
+  simpl. rewrite IH1, IH2, !andb_true_r. split.
+  - apply (contains1_inside Hr Ha); lra.
+  - pose proof (bc_c_pos lo hi c k Hlh Hk Hc). pose proof (bc_c_le lo hi c k Hlh Hk Hc).
+    apply (contains1_inside Hr Ha); lra.
+Qed.
+
+Lemma axes_not_bad tol los his ks cs : 0 <= tol -> axes los his ks cs ->
+  existsb (fun b => b) (map2 (bad_rem tol) cs (edges_of los his)) = false.
+Proof.
+  intros Ht. induction 1 as [|lo hi k c los his ks cs Hlh Hk Hc _ IH]; [reflexivity|].
+  unfold edges_of in *. simpl. rewrite IH, orb_false_r. exact (bc_not_bad lo hi c k Hlh Hk Hc tol Ht).
+Qed.
+
+Lemma axes_round los his ks cs : axes los his ks cs ->
+  map2 (fun e x => Qround_half_even (e / x)) (edges_of los his) cs = ks.
+Proof.
+  induction 1 as [|lo hi k c los his ks cs Hlh Hk Hc _ IH]; [reflexivity|].
+  unfold edges_of in *. simpl. rewrite IH. f_equal. exact (bc_round lo hi c k Hlh Hk Hc).
+Qed.
+
+Lemma axes_minmax los his ks cs : axes los his ks cs ->
+  map2 Qmin los his = los /\ map2 Qmax los his = his /\
+  existsb (fun e => Qeq_bool e 0) (edges_of los his) = false.
+Proof.
+  induction 1 as [|lo hi k c los his ks cs Hlh Hk Hc _ [IH1 [IH2 IH3]]]; [repeat split; reflexivity|].
+  unfold edges_of in *. simpl. rewrite IH1, IH2, IH3.
+  destruct (bc_min lo hi Hlh) as [E1 E2]. rewrite E1, E2, (bc_edge_nonzero lo hi Hlh).
+  repeat split; reflexivity.
+Qed.
+
+Lemma axes_wf los his ks cs : axes los his ks cs ->
+  Forall2 (fun a b => a < b) los his /\ Forall (fun k => 0 < k)%Z ks.
+Proof. induction 1 as [|? ? ? ? ? ? ? ? ? ? ? ? [I1 I2]]; split; constructor; assumption. Qed.
+
+(* the region constructor on ordered corners *)
+Lemma mk_region_axes los his ks cs ds us t : axes los his ks cs -> los <> [] ->
+  length ds = length los -> nodupb ds = true ->
+  match us with Some u => length u = length los | None => True end ->
+  mk_region los his (Some ds) us t =
+  OK (mkRegion los his ds (match us with Some u => u | None => repeat "m"%string (length los) end) t).
+Proof.
+  intros Hax Hne Hd Hnd Hu. destruct (axes_lengths _ _ _ _ Hax) as [L1 [L2 L3]].
+  destruct (axes_minmax _ _ _ _ Hax) as [E1 [E2 E3]].
+  unfold mk_region. rewrite L1, Nat.eqb_refl. simpl negb.
+  destruct (Nat.eqb_spec (length los) 0) as [Z0|_]; [destruct los; [congruence | discriminate]|].
+  rewrite Hd, Nat.eqb_refl, Hnd. simpl.
+  destruct us as [u|]; simpl.
+  - rewrite Hu, Nat.eqb_refl. simpl. rewrite E1, E2, E3. reflexivity.
+  - rewrite E1, E2, E3. reflexivity.
+Qed.
+
+Lemma qlist_min_nonneg l : (forall e, In e l -> 0 < e) -> 0 <= qlist_min l.
+Proof.
+  intros H. destruct l as [|h t]; [unfold qlist_min; lra|].
+  apply Qlt_le_weak. apply qlist_min_pos; [discriminate | exact H].
+Qed.
+
+(* Mesh(region=r, cell=cs) *)
+Lemma by_cell_axes (r : region) ks cs : axes (pmin r) (pmax r) ks cs -> pmin r <> [] -> 0 <= tf r ->
+  mesh_by_cell r cs = OK (mkMesh r ks "" []).
+Proof.
+  intros Hax Hne Htf. destruct (axes_lengths _ _ _ _ Hax) as [L1 [L2 L3]].
+  assert (Hat : 0 <= reg_atol r).
+  { unfold reg_atol. apply Qmult_le_0_compat; [|exact Htf]. apply qlist_min_nonneg.
+    intros e He. unfold edges, edges_of in He.
+    destruct (axes_wf _ _ _ _ Hax) as [F2 _]. clear - F2 He.
+    induction F2 as [|x y l1 l2 Hxy F IH]; simpl in He; [tauto|].
+    destruct He as [E|E]; [subst e; lra | exact (IH E)]. }
+  destruct (axes_contains_lo (tf r) (reg_atol r) _ _ _ _ Htf Hat Hax) as [C1 C2].
+  unfold mesh_by_cell, ndim. rewrite L3, Nat.eqb_refl. simpl negb.
+  rewrite (axes_cells_pos _ _ _ _ Hax). simpl negb.
+  unfold contains_pt, ndim. rewrite map2_length, L3, Nat.min_id, Nat.eqb_refl, C1, C2. simpl.
+  unfold edges. rewrite (axes_not_bad (bycell_tol cs) (pmin r) (pmax r) ks cs).
+  - rewrite (axes_round _ _ _ _ Hax). reflexivity.
+  - unfold bycell_tol, divisibility_factor. apply Qmult_le_0_compat; [|lra].
+    apply qlist_min_nonneg. exact (axes_In_pos _ _ _ _ Hax).
+  - exact Hax.
+Qed.
+
+(* ---------- round trip ---------- *)
+Lemma axes_of_mesh los his ks : Forall2 (fun a b => a < b) los his -> Forall (fun k => 0 < k)%Z ks ->
+  length ks = length los -> axes los his ks (map3 cell_of los his ks).
+Proof.
+  intros F2; revert ks. induction F2 as [|lo hi los his Hlh F IH]; intros [|k ks] Fk L; simpl in *; try discriminate.
+  - constructor.
+  - inversion Fk; subst. constructor; auto. apply cell_times_n; assumption.
+Qed.
+
+Lemma cells_evenly los his ks : Forall2 (fun a b => a < b) los his -> Forall (fun k => 0 < k)%Z ks ->
+  forallb (evenly 1) (map3 cells_axis los his ks) = true.
+Proof.
+  intros F2; revert ks. induction F2 as [|lo hi los his Hlh F IH]; intros [|k ks] Fk; simpl; try reflexivity.
+  inversion Fk; subst. rewrite IH by assumption. rewrite andb_true_r.
+  apply (prog_evenly (cell_of lo hi k)). apply cells_axis_prog; assumption.
+Qed.
+
+Lemma filter_not_vdims ds : ~ In vdims_name ds ->
+  filter (fun d => negb (String.eqb d vdims_name)) ds = ds /\
+  filter (fun d => negb (String.eqb d vdims_name)) (ds ++ [vdims_name]) = ds.
+Proof.
+  induction ds as [|d ds IH]; intros H.
+  - split; reflexivity.
+  - assert (Hd : String.eqb d vdims_name = false).
+    { apply String.eqb_neq. intros E. apply H. left. exact E. }
+    destruct IH as [I1 I2]; [intros X; apply H; right; exact X|].
+    simpl. rewrite Hd. simpl. rewrite I1, I2. split; reflexivity.
+Qed.
+
+Lemma has_vdims_app ds : existsb (String.eqb vdims_name) (ds ++ [vdims_name]) = true.
+Proof. rewrite existsb_app. simpl. apply orb_true_r. Qed.
+
+Lemma all_some_map_Some {A} (l : list A) : all_some (map (@Some A) l) = Some l.
+Proof. induction l as [|a l IH]; simpl; [reflexivity | rewrite IH; reflexivity]. Qed.
+
+Lemma nodupb_NoDup l : NoDup l -> nodupb l = true.
+Proof.
+  induction 1 as [|x l Hx H IH]; [reflexivity|].
+  simpl. rewrite IH, (existsb_eqb_false x l Hx). reflexivity.
+Qed.
+
+Lemma zlist_eqb_refl l : zlist_eqb l l = true.
+Proof. unfold zlist_eqb. induction l as [|x l IH]; simpl; [reflexivity | rewrite Z.eqb_refl, IH; reflexivity]. Qed.
+
+Lemma roundtrip (f : field) (u : option string) : wf_field f ->
+  exists g, from_xarray (to_xarray f u) = OK g /\ field_same f g /\ funit g = None /\
+            ((1 < fnvdim f)%Z \/ fvdims f = None -> fvdims g = fvdims f).
+Proof.
+  intros [Hwf [Hk [Hv Hnv]]].
+  destruct Hwf as [Hr [Hn Hpos]].
+  destruct Hr as [R1 [R2 [R3 [R4 [R5 [R6 R7]]]]]].
+  set (m := fmesh f) in *. set (r := reg m) in *.
+  assert (Hax : axes (pmin r) (pmax r) (n m) (cell m)) by (apply axes_of_mesh; assumption).
+  assert (Hev : forallb (evenly 1) (cells m) = true) by (apply cells_evenly; assumption).
+  assert (Hne : pmin r <> []) by (destruct (pmin r); [simpl in R2; lia | discriminate]).
+  destruct (filter_not_vdims (dims r) Hnv) as [Fl1 Fl2].
+  assert (Hreg : forall ds', ds' = dims r ->
+            mk_region (pmin r) (pmax r) (Some ds') (all_some (map (@Some string) (units r))) default_tf =
+            OK (mkRegion (pmin r) (pmax r) (dims r) (units r) default_tf)).
+  { intros ds' ->. rewrite all_some_map_Some.
+    rewrite (mk_region_axes (pmin r) (pmax r) (n m) (cell m) (dims r) (Some (units r)) default_tf Hax Hne R3
+               (nodupb_NoDup _ R5) R4). reflexivity. }
+  assert (Hby : mesh_by_cell (mkRegion (pmin r) (pmax r) (dims r) (units r) default_tf) (cell m) =
+                OK (mkMesh (mkRegion (pmin r) (pmax r) (dims r) (units r) default_tf) (n m) "" [])).
+  { apply by_cell_axes; simpl; [exact Hax | exact Hne | unfold default_tf; lra]. }
+  unfold from_xarray, from_xarray_f, to_xarray, geo_dims, has_vdims_dim, shape_ok, is_vector.
+  fold m. fold r.
+  cbn [xdims xshape xcoords xcunits xvdims xdata xdtype a_units a_cell a_pmin a_pmax a_nvdim a_tf].
+  destruct (Z.ltb_spec (fnvdim f) 1) as [K0|_]; [lia|].
+  rewrite Hev. simpl negb.
+  destruct (Z.ltb_spec 1 (fnvdim f)) as [Kv | Ks].
+  - (* vector field *)
+    rewrite has_vdims_app. simpl andb. cbv iota.
+    unfold bind. cbv iota beta. rewrite (Hreg _ Fl2). cbv iota beta. rewrite Hby. cbv iota beta.
+    cbn [pmin pmax dims units n bc subs reg].
+    destruct (fvdims f) as [l|] eqn:Ev; simpl in Hv.
+    + destruct Hv as [V1 [V2 V3]]. unfold set_vdims.
+      destruct l as [|l0 l']; [congruence|].
+      rewrite V2, Z.eqb_refl, V3. simpl negb. cbv iota.
+      destruct (Z.eqb_spec (fnvdim f) 1) as [E1|_]; [lia|].
+      rewrite zlist_eqb_refl. simpl negb. cbv iota.
+      eexists. split; [reflexivity|]. unfold field_same. simpl. fold m. fold r.
+      repeat split; reflexivity.
+    + lia.
+  - (* scalar field *)
+    assert (K1 : fnvdim f = 1%Z) by lia.
+    rewrite andb_false_l. cbv iota.
+    unfold bind. cbv iota beta. rewrite (Hreg _ Fl1). cbv iota beta. rewrite Hby. cbv iota beta.
+    cbn [pmin pmax dims units n bc subs reg].
+    unfold set_vdims, default_vdims. rewrite K1. simpl Z.ltb. cbv iota.
+    simpl Z.eqb. cbv iota. rewrite zlist_eqb_refl. simpl negb. cbv iota.
+    eexists. split; [reflexivity|]. unfold field_same. simpl. fold m. fold r.
+    repeat split; try reflexivity; try (symmetry; exact K1).
+    intros [L | L]; [lia | symmetry; exact L].
+Qed.
+
+(* ---------- witnesses ---------- *)
+Definition ex_mesh : mesh := mkMesh (mkRegion [0] [4] ["x"%string] ["m"%string] default_tf) [4%Z] "" [].
+Definition ex_scalar_labelled : field :=
+  mkField ex_mesh 1 (Some ["s"%string]) "float64" None [1; 2; 3; 4].
+Definition ex_vector : field :=
+  mkField ex_mesh 2 (Some ["a"%string; "b"%string]) "float64" None [1; 2; 3; 4; 5; 6; 7; 8].
+
+Lemma ex_mesh_wf : wf_mesh ex_mesh.
+Proof.
+  unfold wf_mesh, wf_region, ex_mesh; simpl. repeat split; try lia.
+  - constructor; [simpl; tauto | constructor].
+  - constructor; [lra | constructor].
+  - unfold default_tf. lra.
+  - constructor; [lia | constructor].
+Qed.
+
+Lemma ex_scalar_wf : wf_field ex_scalar_labelled.
+Proof.
+  unfold wf_field. split; [exact ex_mesh_wf|]. simpl. repeat split; try lia; try discriminate.
+  intros [H | H]; [discriminate | exact H].
+Qed.
+
+Lemma ex_vector_wf : wf_field ex_vector.
+Proof.
+  unfold wf_field. split; [exact ex_mesh_wf|]. simpl. repeat split; try lia; try discriminate.
+  intros [H | H]; [discriminate | exact H].
+Qed.
+
+(* the label of a scalar field does not survive the round trip *)
+Lemma roundtrip_scalar_label_refuted :
+  exists f g, wf_field f /\ from_xarray (to_xarray f None) = OK g /\ fvdims g <> fvdims f.
+Proof.
+  exists ex_scalar_labelled. eexists. split; [exact ex_scalar_wf|].
+  split; [vm_compute; reflexivity | simpl; discriminate].
+Qed.
